@@ -32,7 +32,7 @@ func slots(tier string) int {
 
 func histories(tier string) int {
 	if tier == "thorough" {
-		return 8
+		return 4 // measured: ~8 min per history on 16 idle cores (every FS call of every write-out x 3 errnos + fault pairs)
 	}
 	return 2
 }
